@@ -1,11 +1,11 @@
-\* Universe E (thorough): all operators, histories of 3 operations ending or not with an Equation.
+\* Universe E (thorough): one + or * application, histories of <= 3 operations (assign, undo) ending with an Equation for every comparison, hard and soft, epsilon 0, 1/4, 1e-7.
 SPECIFICATION Spec
 CONSTANTS
   Consts <- ConstsA
-  Scals <- ScalsA
+  Scals <- ScalsH
   Vals <- ValsB
-  Inits <- InitsB
-  BinOps <- AllBin
+  Inits <- InitsA
+  BinOps <- TwoBin
   WithSqrt = FALSE
   WithRaw = FALSE
   SameNames = {0}
